@@ -181,11 +181,15 @@ class Prop(c09.Prop):
             with c18.quiet():
                 f = P.pncopen(path, format='bpch1', noscale=True)
             out = {}
+            timed = set()
             for k in f.variables.keys():
                 try:
                     out[k] = np.array(np.asarray(f.variables[k][...]))
+                    if tuple(f.variables[k].dimensions)[:1] == ('time',):
+                        timed.add(k)
                 except Exception:
                     out[k] = None
+            out['__timed__'] = timed
             nt_ = len(f.dimensions['time']) if 'time' in f.dimensions else None
             del f
             return nt_, out
@@ -196,7 +200,8 @@ class Prop(c09.Prop):
             fnt, fdata = read(p)
         except Exception as e:
             return result('full-file-unreadable', [], [h64(raw)], 1, None, h64(type(e).__name__))
-        keys = [k for k, v in fdata.items() if v is not None and v.ndim >= 1 and v.shape[0] == fnt]
+        # variables along the time dimension (by name, not by a coincidence of lengths)
+        keys = [k for k in sorted(fdata['__timed__']) if fdata[k] is not None]
         vs, outcomes, ntrans = [], {}, 0
         for cut in range(g['hi'] - 1, g['lo'] - 1, -1):
             with open(p, 'wb') as fh:
